@@ -195,6 +195,20 @@ def gen_lifecycle():
     out += "/-- attributes of phase objects written outside their __init__ -/\n"
     out += "def phaseMutable : List Str := %s\n" % strlist(sorted(ph_mut))
     out += "def phasesRecreatedByReset : Bool := %s\n" % ("true" if "phases" in established else "false")
+    # ---- process-wide shared objects: the entity trie is one module-level object used by every tokenizer; the
+    # lookups the tokenizer performs must not write to it
+    writes = set()
+    for rel in ("html5lib/_trie/py.py", "html5lib/_trie/_base.py"):
+        t = ast.parse(src(rel))
+        for cls in ast.walk(t):
+            if isinstance(cls, ast.ClassDef) and cls.name == "Trie":
+                for m in cls.body:
+                    if isinstance(m, ast.FunctionDef) and m.name in ("has_keys_with_prefix", "longest_prefix", "longest_prefix_item",
+                                                                     "__contains__", "__getitem__", "__len__", "__iter__"):
+                        writes |= {"%s.%s" % (m.name, a) for a in attr_targets(m, is_self)}
+    out += "/-- attributes written by the trie lookups the tokenizer calls (must be none: the trie is shared process-wide) -/\n"
+    out += "def trieLookupWrites : List Str := %s\n" % strlist(sorted(writes))
+    # module-level mutable containers written from functions of the parser path
     out += "-- fingerprint HTMLParser.reset %s\n-- fingerprint HTMLParser._parse %s\n-- fingerprint TreeBuilder.reset %s\n" % (
         sha(ast.dump(methods["reset"])), sha(ast.dump(methods["_parse"])), sha(ast.dump(bmethods["reset"])))
     return out + FOOTER
